@@ -151,8 +151,27 @@ fn calls(sh: &Shared, seed: u64) -> Vec<Call> {
         s ^= s << 17;
         s
     };
+    // a foreign, non-canonical variant of the first message: M bit clear and
+    // reserved AVP flag bits set on every record (legal for a lax receiver)
+    let mut foreign = enc[0].clone();
+    {
+        let mut pos = 12;
+        while pos + 6 <= foreign.len() {
+            let len = (((foreign[pos] >> 6) as usize) << 8) | foreign[pos + 1] as usize;
+            if len < 6 {
+                break;
+            }
+            foreign[pos] = (foreign[pos] & !0x01) | 0x24;
+            pos += len;
+        }
+    }
     let mut out = Vec::new();
-    for i in 0..24usize {
+    // the same foreign message under a strict and a lax option set, so that
+    // threads with different configurations overlap inside one decode
+    out.push(Call::Decode(foreign.clone(), 0));
+    out.push(Call::Decode(foreign.clone(), 7));
+    out.push(Call::Greedy(foreign[12..].to_vec()));
+    for i in 0..21usize {
         let pick = (next() % 7) as usize;
         out.push(match pick {
             0 => Call::Decode(enc[i % enc.len()].clone(), (next() % 8) as u8),
